@@ -60,6 +60,8 @@ Definition batch_eqb (a b : batch) : bool :=
 Record pcase := mkpc {
   pc_g : geno;                         (* the object that is written *)
   pc_cw : option Z; pc_cr : option Z;  (* chunk_size for write / read *)
+  pc_strict_half : bool;               (* harness switch: demand the round trip also for calls missing in
+                                          one allele only (pgenlib cannot store them; default false) *)
   pc_calls : res (Z * list batch);     (* observed: allele_ct_limit and the append_*_batch calls
                                           (recorder around pgenlib.PgenWriter); Err = write raised *)
   pc_back : res geno                   (* observed: the object haptools read back *)
@@ -77,7 +79,7 @@ Definition agree_pgen (k : pcase) : bool :=
   && res_eqb geno_eqb b (pc_back k).
 
 Definition holds_pgen (k : pcase) : bool :=
-  if geno_domb false (pc_g k) && chunk_domb (pc_cw k) && chunk_domb (pc_cr k) then
+  if geno_domb (pc_strict_half k) (pc_g k) && chunk_domb (pc_cw k) && chunk_domb (pc_cr k) then
     match pc_back k with
     | Ok g' => same_geno (pc_g k) g'
     | Err _ => false
